@@ -2,7 +2,7 @@
 (* Layer B against Layer A: for every program of the bounded generator, on   *)
 (* the reference world and two domain choices, the mechanism model yields    *)
 (* exactly the rows the denotation prescribes.                               *)
-EXTENDS GenQuery, EQLMech2, RefWorld
+EXTENDS GenQuery, EQLMech3, RefWorld
 Doms == << <<1, 2, 3, 4>>, <<3, 1>>, <<2, 4, 1>> >>
 MQ(p, d1, d2) == [vars |-> [j \in 1..NV |-> [cls |-> "A", dom |-> IF j = 1 THEN Doms[d1] ELSE Doms[d2]]],
                   flats |-> <<>>, bound |-> <<>>, desc |-> p.desc, sel |-> p.sel, cond |-> p.cond]
@@ -15,4 +15,9 @@ Mech2EqualsSem ==
   done # <<>> => \A d1 \in 1..2, d2 \in 2..3 :
      LET q == MQ(done[1], d1, d2)
      IN Mech2Sound(q, RefW) /\ Mech2Complete(q, RefW) /\ Mech2NoDup(q, RefW)
+\* stage B3: with the operator result caches, first evaluation and re-evaluation (C05 at the level of the design)
+Mech3EqualsSem ==
+  done # <<>> => \A d1 \in 1..2, d2 \in 2..3 :
+     LET q == MQ(done[1], d1, d2)
+     IN \A k \in 1..2 : Mech3Sound(q, RefW, k) /\ Mech3Complete(q, RefW, k) /\ Mech3NoDup(q, RefW, k)
 =============================================================================
